@@ -3331,7 +3331,7 @@ class Zeros(Array):
     def _determinant(self, axis1, axis2):
         assert axis1 != axis2
         length = self.shape[axis1]
-        assert length == self.shape[axis2]
+        assert not _certainly_different(length, self.shape[axis2])
         i, j = sorted([axis1, axis2])
         shape = (*self.shape[:i], *self.shape[i+1:j], *self.shape[j+1:])
         dtype = complex if self.dtype == complex else float
